@@ -195,7 +195,7 @@ func TestRandomTrees(t *testing.T) {
 	g := disk.Gen{MaxDepth: 3, MaxFan: 6, Exotic: true, BigFiles: true, Links: true}
 	base := t.TempDir()
 	i := 0
-	ev.Check(t, rec, 600, 20000, func(rt *rapid.T) {
+	ev.Check(t, rec, 2000, 30000, func(rt *rapid.T) {
 		c := &Case{}
 		switch rapid.IntRange(0, 19).Draw(rt, "rootkind") {
 		case 0:
